@@ -255,8 +255,9 @@ def gen_never_started(tier, rng, prefix, count):
     return out
 
 def gen_many_workers(tier, rng, prefix, count):
-    """tens of thousands of fixed workers (legal): everything still starts, runs and stops; monitors only (the model replay
-    is quadratic in the number of threads)"""
+    """tens of thousands of fixed workers (legal): everything still starts, runs and stops.  NOT used by the checks: one such
+    run takes 17 s under the cooperative scheduler and the replayer's configuration for 16 000 threads does not fit in
+    memory; the volume runs (harness/cmd/volume) cover pools of 16 387 and 40 000 workers on the real runtime"""
     out = []
     for i in range(count):
         nw = [16387, 20000, 33000][i % 3]
@@ -280,11 +281,11 @@ def gen_nilexec(tier, rng, prefix, count):
 def gen_c04(tier, rng):
     return (gen_basic(tier, rng, "a", scale(tier, 24, 200), stop=False) + gen_basic(tier, rng, "b", scale(tier, 16, 150), stop=True)
             + gen_saturated(tier, rng, "s", scale(tier, 8, 60)) + gen_stop(tier, rng, "x", scale(tier, 10, 80))
-            + gen_nilexec(tier, rng, "n", scale(tier, 6, 40)) + gen_many_workers(tier, rng, "mw", scale(tier, 0, 3)))
+            + gen_nilexec(tier, rng, "n", scale(tier, 6, 40)))
 
 def gen_c08(tier, rng):
     return gen_stop(tier, rng, "a", scale(tier, 30, 250)) + gen_basic(tier, rng, "b", scale(tier, 12, 100), stop=True) \
-        + gen_nilexec(tier, rng, "n", scale(tier, 6, 40)) + gen_many_workers(tier, rng, "mw", scale(tier, 0, 3)) \
+        + gen_nilexec(tier, rng, "n", scale(tier, 6, 40)) \
         + gen_never_started(tier, rng, "ns", scale(tier, 4, 16))
 
 def gen_c11(tier, rng):
@@ -292,8 +293,7 @@ def gen_c11(tier, rng):
 
 def gen_c12(tier, rng):
     return gen_race_stop(tier, rng, "a", scale(tier, 36, 300)) + gen_basic(tier, rng, "b", scale(tier, 10, 80), stop=True, starts=True) \
-        + gen_deferred_start(tier, rng, "d", scale(tier, 9, 60)) + gen_never_started(tier, rng, "ns", scale(tier, 8, 24)) \
-        + gen_many_workers(tier, rng, "mw", scale(tier, 0, 3))
+        + gen_deferred_start(tier, rng, "d", scale(tier, 9, 60)) + gen_never_started(tier, rng, "ns", scale(tier, 8, 24))
 
 def gen_c17(tier, rng):
     return gen_saturated(tier, rng, "a", scale(tier, 24, 200)) + gen_expansion(tier, rng, "e", scale(tier, 8, 56)) \
